@@ -67,9 +67,9 @@ OPS = {
     'Mod': (lambda par, n, a, o, p: py4hw.Mod(par, n, a[0], a[1], o), lambda v, ws, w, p: None if v[1] == 0 else v[0] % v[1]),
     'SignedMul': (lambda par, n, a, o, p: py4hw.SignedMul(par, n, a[0], a[1], o),
                   lambda v, ws, w, p: to_signed(v[0], ws[0]) * to_signed(v[1], ws[1])),
-    'And': (lambda par, n, a, o, p: py4hw.And(par, n, list(a), o), lambda v, ws, w, p: _fold(v, lambda x, y: x & y)),
-    'Or': (lambda par, n, a, o, p: py4hw.Or(par, n, list(a), o), lambda v, ws, w, p: _fold(v, lambda x, y: x | y)),
-    'Xor': (lambda par, n, a, o, p: py4hw.Xor(par, n, list(a), o), lambda v, ws, w, p: _fold(v, lambda x, y: x ^ y)),
+    'And': (lambda par, n, a, o, p: _nary_gate(py4hw.And, par, n, a, o), lambda v, ws, w, p: _fold(v, lambda x, y: x & y)),
+    'Or': (lambda par, n, a, o, p: _nary_gate(py4hw.Or, par, n, a, o), lambda v, ws, w, p: _fold(v, lambda x, y: x | y)),
+    'Xor': (lambda par, n, a, o, p: _nary_gate(py4hw.Xor, par, n, a, o), lambda v, ws, w, p: _fold(v, lambda x, y: x ^ y)),
 }
 def _scalek_build(par, n, a, o, p):
     from .behav_blocks import ScaleK
@@ -111,6 +111,15 @@ OPS['LocalAR'] = (_localar_build, lambda v, ws, w, p: ((v[0] + 1) * 3) & 65535)
 OPS['Mealy'] = (_mealy_build, None)
 OPS['BitSel'] = (_bitsel_build, lambda v, ws, w, p: (v[0] >> p['bit']) & 1)
 STATE_OPS = ('Reg', 'Mem')
+
+
+def _nary_gate(ctor, par, n, a, o):
+    """the caller keeps using its list after the gate was built (accumulate-and-instantiate loops do): the block must have
+    taken its own copy"""
+    lst = list(a)
+    obj = ctor(par, n, lst, o)
+    del lst[1:]
+    return obj
 
 
 def _fold(v, f):
